@@ -7,5 +7,6 @@ CONSTANTS
   NGs = {1, 2}
   MCs = {0, 1, 2}
   D13 = TRUE
-INVARIANTS TypeOK PanicsExactlyWhenNamed ReturnsAcceptable ExactImpliesWeaker RejectsSurvivor RejectsDamage Export
+  M_AllMatches = TRUE
+INVARIANTS TypeOK PanicsExactlyWhenNamed AllMatchesVisited ReturnsAcceptable ExactImpliesWeaker RejectsSurvivor RejectsDamage Export
 CHECK_DEADLOCK FALSE
